@@ -603,7 +603,6 @@ class Signomial(object):
         alpha = np.array(alpha)
         c = np.array(c)
         s = Signomial(alpha, c)
-        s._alpha_c = d
         return s
 
 
